@@ -2,6 +2,7 @@
 a list of cases, let TLC judge the recorded executions with the layer-A contracts
 (spec/MuxTrace.tla), attribute rejected clauses to the property under check."""
 import json
+import os
 import re
 
 from . import common as C
@@ -21,7 +22,7 @@ def run_case(case, taps='all'):
         return M.run_mux(case['pipe'], case['src'], timescale=case.get('timescale'), taps=taps,
                          dl_late=case.get('dl_late', False), share_ops=case.get('share_ops', False),
                          warmup=case.get('warmup'), store_split=case.get('store_split'),
-                         feedback=case.get('feedback'))
+                         feedback=case.get('feedback'), reapply=case.get('reapply', False))
     if mode == 'src':
         return M.run_src(case['pipe'], case['src'], complete=case.get('complete', True),
                          timescale=case.get('timescale'), taps=taps, root=case.get('root', 'store'),
@@ -144,6 +145,9 @@ def judge(V, cases, relevant, stats, family='', keep_traces=None, isolation=None
             # lifecycle clauses do not apply to that key at the boundaries it passes through
             other = [(p_, n_) for (p_, n_) in other if not n_.startswith('proto-')]
         if other:
+            if os.environ.get('VERIF_SHOW_OTHER'):
+                print('OTHER', other, json.dumps({k: cases[i].get(k) for k in cases[i] if k != 'multi'})[:1500],
+                      'end=', traces[i]['end'], 'out=', json.dumps(traces[i]['out'])[:400], flush=True)
             stats.setdefault('other_property_clauses', {})
             for _, n in other:
                 stats['other_property_clauses'][n] = stats['other_property_clauses'].get(n, 0) + 1
@@ -167,7 +171,7 @@ def judge(V, cases, relevant, stats, family='', keep_traces=None, isolation=None
                          'mode': tr['mode'], 'src': tr['src'],
                          'timescale': cases[i].get('timescale'), 'multi': cases[i].get('multi'),
                          'root': cases[i].get('root', 'store'), 'dl_late': cases[i].get('dl_late', False),
-                         'share_ops': cases[i].get('share_ops', False), 'warmup': cases[i].get('warmup'), 'store_split': cases[i].get('store_split'), 'feedback': cases[i].get('feedback'), 'source': cases[i].get('source'),
+                         'share_ops': cases[i].get('share_ops', False), 'warmup': cases[i].get('warmup'), 'reapply': cases[i].get('reapply', False), 'store_split': cases[i].get('store_split'), 'feedback': cases[i].get('feedback'), 'source': cases[i].get('source'),
                          'clauses': ['%s:%s' % pn for pn in names]},
                         '+'.join(sorted({n for _, n in mine})),
                         detail='first rejected at source step %s' % step)
@@ -179,7 +183,7 @@ def judge(V, cases, relevant, stats, family='', keep_traces=None, isolation=None
                          'pipe': json.dumps(tr['pipe'], sort_keys=True), 'mode': tr['mode'], 'src': tr['src'],
                          'timescale': c.get('timescale'), 'root': c.get('root', 'store'),
                          'dl_late': c.get('dl_late', False), 'share_ops': c.get('share_ops', False),
-                         'warmup': c.get('warmup'), 'store_split': c.get('store_split'),
+                         'warmup': c.get('warmup'), 'reapply': c.get('reapply', False), 'store_split': c.get('store_split'),
                          'feedback': c.get('feedback'), 'source': c.get('source'), 'source_lost': True, 'clauses': ['source-events-lost']},
                         'source-events-lost', detail=lost)
     stats['rejected'] = stats.get('rejected', 0) + len(rejected)
@@ -201,7 +205,7 @@ def judge(V, cases, relevant, stats, family='', keep_traces=None, isolation=None
                          'pipe': json.dumps(tr['pipe'], sort_keys=True), 'mode': tr['mode'],
                          'src': tr['src'], 'timescale': c.get('timescale'), 'untapped': True,
                          'multi': c.get('multi'), 'root': c.get('root', 'store'), 'dl_late': c.get('dl_late', False),
-                         'share_ops': c.get('share_ops', False), 'warmup': c.get('warmup'), 'store_split': c.get('store_split'), 'feedback': c.get('feedback'), 'source': c.get('source'),
+                         'share_ops': c.get('share_ops', False), 'warmup': c.get('warmup'), 'reapply': c.get('reapply', False), 'store_split': c.get('store_split'), 'feedback': c.get('feedback'), 'source': c.get('source'),
                          'clauses': ['untapped-differs']}, 'untapped-differs',
                         detail='without inner taps: end=%s out=%s' % (u['end'], json.dumps(ends(u)[0])[:300]))
             stats['untapped_differs'] = stats.get('untapped_differs', 0) + 1
@@ -263,6 +267,8 @@ def replay(prop, path, relevant):
     case['share_ops'] = w.get('share_ops', False)
     if w.get('warmup'):
         case['warmup'] = w['warmup']
+    if w.get('reapply'):
+        case['reapply'] = True
     if w.get('store_split'):
         case['store_split'] = w['store_split']
     if w.get('feedback'):
